@@ -23,7 +23,7 @@ def forceT (T : Tensor R) : Tensor R :=
   let sh := T.shape
   let g := T.get
   let arr : Array R := Array.ofFn (n := sh.prod) (fun t => g (unravel sh t.val))
-  ⟨sh, fun idx => if inB sh idx then arr.getD (ravel sh idx) (g idx) else g idx⟩
+  ⟨sh, fun idx => if inB sh idx then (match arr[ravel sh idx]? with | some v => v | none => g idx) else g idx⟩
 
 @[simp] theorem forceT_eq (T : Tensor R) : forceT T = T := by
   cases T with
@@ -34,8 +34,8 @@ def forceT (T : Tensor R) : Tensor R :=
     · rename_i h
       have hb : InB sh idx := (inB_iff sh idx).mp h
       have hlt := ravel_lt sh idx hb
-      rw [Array.getD_eq_getD_getElem?, Array.getElem?_ofFn]
-      simp only [hlt, dite_true, Option.getD_some]
+      rw [Array.getElem?_ofFn]
+      simp only [hlt, dite_true]
       rw [unravel_ravel sh idx hb]
     · rfl
 
